@@ -303,8 +303,10 @@ def run_case(spec):
     rnd = rng_for(spec['seed'], 'C20', spec['idx'])
     mode = rnd.choice(['rot', 'rot', 'rot', 'pre', 'pre', 'time', 'norot', 'reopen', 'uni'])
     mb = rnd.choice([1, 2, 7, 16, 64, 100, 1000, 4096])
-    bc = rnd.randint(1, 5)
+    bc = rnd.randint(1, 5) if rnd.random() < .85 else rnd.choice([9, 10, 11, 12, 25])
     nw = rnd.randint(1, 200 if mb >= 64 else 40)
+    if bc > 8:
+        nw = max(nw, 3 * bc)            # enough rollovers to fill every backup slot
     base = [0, 1, 2, mb // 2, mb - 2, mb - 1, mb, mb + 1, 2 * mb + 3, 3]
     args = dict(mb=mb, bc=bc, sizes=[max(0, rnd.choice(base)) for _ in range(nw)], ctx=mode)
     if mode in ('pre',):
